@@ -100,6 +100,10 @@ def all3 (op : CmpOp) (v : Val) : List Val → Tri
   | [] => some true
   | x :: xs => and3 (cmp3 op v x) (all3 op v xs)
 
+/-- `v IN (subquery)` is `v = ANY (…)`; `v NOT IN (subquery)` its negation (= `v <> ALL (…)`, `not_in_is_all_ne`) -/
+def inSub (v : Val) (xs : List Val) : Tri := any3 .eq v xs
+def notInSub (v : Val) (xs : List Val) : Tri := not3 (any3 .eq v xs)
+
 /-! ### values used as conditions; a small expression language -/
 /-- truth of a non-NULL value used as a condition (boolean-typed in the fragment; for other types the Python rule) -/
 def truthy : Val → Bool
